@@ -58,6 +58,8 @@ pub struct Cfg {
     pub batch: usize,
     pub bucket: usize,
     pub min_ion_index: usize,
+    /// 0 = no TMT quantification, else the plex (6, 10, 11, 16, 18), always at MS2 level
+    pub tmt: u8,
 }
 
 #[derive(Clone, Debug)]
@@ -116,7 +118,7 @@ pub fn encode(r: &Request) -> String {
         Some(x) => o.n(1).n(x),
         None => o.n(0),
     };
-    o.b(c.deisotope).b(c.annotate).b(c.pin).b(c.predict_rt).n(c.batch).n(c.bucket).n(c.min_ion_index);
+    o.b(c.deisotope).b(c.annotate).b(c.pin).b(c.predict_rt).n(c.batch).n(c.bucket).n(c.min_ion_index).n(c.tmt);
     o.n(r.fasta.len());
     for (a, s) in &r.fasta {
         o.s(a).s(s);
@@ -179,6 +181,7 @@ pub fn decode(t: &mut Toks) -> Option<Request> {
     let batch = t.usize()?;
     let bucket = t.usize()?;
     let min_ion_index = t.usize()?;
+    let tmt = t.usize()? as u8;
     let fasta = t.list(|t| Some((t.string()?, t.string()?)))?;
     let files = t.list(|t| {
         t.list(|t| {
@@ -196,7 +199,7 @@ pub fn decode(t: &mut Toks) -> Option<Request> {
         cfg: Cfg {
             cleave, restrict, cterm, semi, mc, min_len, max_len, min_mass, max_mass, statics, vars, max_var,
             decoy_tag, gen_decoys, ptol, ftol, iso, z, report_psms, chimera, min_peaks, max_peaks, min_matched,
-            max_frag_charge, deisotope, annotate, pin, predict_rt, batch, bucket, min_ion_index,
+            max_frag_charge, deisotope, annotate, pin, predict_rt, batch, bucket, min_ion_index, tmt,
         },
         fasta,
         files,
@@ -239,7 +242,12 @@ pub fn database_json(c: &Cfg, fasta_path: &str) -> serde_json::Value {
 }
 
 pub fn config_json(c: &Cfg, fasta_path: &str, spectra_paths: &[String], outdir: &str) -> serde_json::Value {
+    let quant = match c.tmt {
+        0 => serde_json::json!({}),
+        n => serde_json::json!({"tmt": format!("Tmt{}", n), "tmt_settings": {"level": 2, "sn": false}}),
+    };
     serde_json::json!({
+        "quant": quant,
         "database": database_json(c, fasta_path),
         "precursor_tol": tol_json(c.ptol),
         "fragment_tol": tol_json(c.ftol),
@@ -468,6 +476,36 @@ pub fn run(r: &Request) -> String {
     } else {
         o.n(0);
     }
+    // tmt.tsv: filename, scannr, then one column per channel
+    if r.cfg.tmt != 0 {
+        match read_table(&outdir.join("tmt.tsv")) {
+            None => return "err:no-tmt".into(),
+            Some((header, rows)) => {
+                let fi = header.iter().position(|h| h == "filename");
+                let si = header.iter().position(|h| h == "scannr");
+                let chans: Vec<usize> = header.iter().enumerate().filter(|(_, h)| h.starts_with("tmt_")).map(|(i, _)| i).collect();
+                let (fi, si) = match (fi, si) {
+                    (Some(a), Some(b)) => (a, b),
+                    _ => return "err:missing-column:tmt".into(),
+                };
+                o.n(rows.len());
+                for row in &rows {
+                    if row.len() != header.len() {
+                        return "err:short-row:tmt".into();
+                    }
+                    o.s(&row[fi]).s(&row[si]).n(chans.len());
+                    for &c in &chans {
+                        match row[c].parse::<f32>() {
+                            Ok(v) => o.f32(v),
+                            Err(_) => return "err:bad-cell:tmt".into(),
+                        };
+                    }
+                }
+            }
+        }
+    } else {
+        o.n(0);
+    }
     o.finish()
 }
 
@@ -551,6 +589,7 @@ fn random_cfg(rng: &mut Rng) -> Cfg {
         batch: 1 + rng.below(3),
         bucket: *rng.pick(&[8usize, 64, 8192]),
         min_ion_index: *rng.pick(&[1usize, 2]),
+        tmt: if rng.chance(1, 3) { *rng.pick(&[6u8, 10, 11, 16, 18]) } else { 0 },
     }
 }
 
@@ -606,6 +645,28 @@ pub fn random_request(rng: &mut Rng, nspec: usize) -> Option<Request> {
         }
         for _ in 0..rng.below(12) {
             peaks.push((150.0 + rng.unit() as f32 * 1500.0, *rng.pick(&[10.0f32, 20.0, 50.0])));
+        }
+        if cfg.tmt != 0 {
+            // reporter peaks exactly on the channel m/z (plus a few absent channels and a second, weaker
+            // peak 3 ppm away in some windows)
+            let plex = match cfg.tmt {
+                6 => sage_core::tmt::Isobaric::Tmt6,
+                10 => sage_core::tmt::Isobaric::Tmt10,
+                11 => sage_core::tmt::Isobaric::Tmt11,
+                16 => sage_core::tmt::Isobaric::Tmt16,
+                _ => sage_core::tmt::Isobaric::Tmt18,
+            };
+            peaks.retain(|p| p.0 > 140.0);
+            for &m in plex.reporter_masses() {
+                if rng.chance(1, 6) {
+                    continue;
+                }
+                let inten = *rng.pick(&[30.0f32, 60.0, 120.0, 240.0]);
+                peaks.push((m, inten));
+                if rng.chance(1, 4) {
+                    peaks.push((m * (1.0 + 3.0e-6), inten / 2.0));
+                }
+            }
         }
         peaks.sort_by(|a, b| a.0.total_cmp(&b.0));
         let file = rng.below(nfiles);
@@ -680,7 +741,8 @@ pub fn gen(rng: &mut Rng, tier: Tier, emit: &mut dyn FnMut(Case)) {
                 .tag_if(!c.vars.is_empty(), "variable-mods")
                 .tag_if(!c.statics.is_empty(), "static-mods")
                 .tag_if(c.report_psms > 1, "report_psms>1")
-                .tag_if(r.files.len() > 1, "multi-file");
+                .tag_if(r.files.len() > 1, "multi-file")
+                .tag_if(c.tmt != 0, "tmt");
             emit(case);
             made += 1;
         }
